@@ -117,4 +117,239 @@ theorem periodAt_spec (p : SqP) (hp : 0 < p.period) (k : Nat) :
     · have : m - 1 + 1 = m := by omega
       rw [this]; exact hs
 
+/-! ### One pass of the stride loop -/
+
+theorem setSlice_length (l : List α) (a : Nat) (v : List α) (h : a + v.length ≤ l.length) :
+    (setSlice l a v).length = l.length := by
+  simp [setSlice]; omega
+
+theorem setSlice_getElem? (l : List α) (a : Nat) (v : List α) (h : a + v.length ≤ l.length) (j : Nat) :
+    (setSlice l a v)[j]? = if a ≤ j ∧ j < a + v.length then v[j - a]? else l[j]? := by
+  unfold setSlice
+  by_cases h1 : j < a
+  · rw [if_neg (by omega), List.append_assoc, List.getElem?_append_left (by simp; omega),
+      List.getElem?_take, if_pos h1]
+  · by_cases h2 : j < a + v.length
+    · rw [if_pos ⟨by omega, h2⟩, List.append_assoc, List.getElem?_append_right (by simp; omega),
+        List.getElem?_append_left (by simp; omega)]
+      congr 1
+      simp; omega
+    · rw [if_neg (by omega), List.getElem?_append_right (by simp; omega), List.getElem?_drop]
+      congr 1
+      simp; omega
+
+theorem tbl_getElem? (tukey : Nat → α) (D a m t : Nat) :
+    ((((List.range D).map tukey).drop a).take m)[t]? = if t < m ∧ a + t < D then some (tukey (a + t)) else none := by
+  by_cases h1 : t < m
+  · by_cases h2 : a + t < D
+    · simp [List.getElem?_drop, h1, h2]
+    · simp [List.getElem?_drop, h1, h2]
+  · simp [h1]
+
+theorem tbl_length (tukey : Nat → α) (D a m : Nat) :
+    ((((List.range D).map tukey).drop a).take m).length = min m (D - a) := by simp
+
+theorem squareStep_length (tukey : Nat → α) (p : SqP) (off n : Nat) (env : List α) (henv : env.length = n)
+    (i : Int) : (squareStep ((List.range p.duty).map tukey) p off n env i).length = n := by
+  unfold squareStep
+  simp only []
+  generalize p.startOf i = S
+  split
+  · split
+    · rw [setSlice_length _ _ _ (by rw [tbl_length]; unfold clip; omega), henv]
+    · exact henv
+  · rw [← List.drop_zero (l := List.map tukey (List.range p.duty)),
+      setSlice_length _ _ _ (by rw [tbl_length]; unfold clip; omega), henv]
+
+/-- Period `i` paints the chunk samples inside `[start, start + duty)` with the Tukey table read
+at the distance from the period start, and leaves every other sample as it was. -/
+theorem squareStep_getElem? (tukey : Nat → α) (p : SqP) (off n : Nat) (env : List α) (henv : env.length = n)
+    (i : Int) (j : Nat) (hj : j < n) :
+    (squareStep ((List.range p.duty).map tukey) p off n env i)[j]? =
+      if p.startOf i ≤ (off : Int) + j ∧ (off : Int) + j < p.startOf i + p.duty then
+        some (tukey ((off : Int) + j - p.startOf i).toNat)
+      else env[j]? := by
+  unfold squareStep
+  simp only []
+  generalize p.startOf i = S
+  split
+  · rename_i hs
+    split
+    · rename_i hr
+      rw [setSlice_getElem? _ _ _ (by rw [tbl_length]; unfold clip; omega), tbl_length]
+      by_cases hc : (off : Int) + j < S + p.duty
+      · rw [if_pos (by unfold clip; omega), if_pos ⟨by omega, hc⟩, tbl_getElem?,
+          if_pos (by unfold clip; omega)]
+        congr 2
+        omega
+      · rw [if_neg (by unfold clip; omega), if_neg (by omega)]
+    · rw [if_neg (by omega)]
+  · rename_i hs
+    rw [← List.drop_zero (l := List.map tukey (List.range p.duty)),
+      setSlice_getElem? _ _ _ (by rw [tbl_length]; unfold clip; omega), tbl_length]
+    by_cases hc : S ≤ (off : Int) + j ∧ (off : Int) + j < S + p.duty
+    · rw [if_pos (by unfold clip; omega), if_pos hc, tbl_getElem?, if_pos (by unfold clip; omega)]
+      congr 2
+      unfold clip; omega
+    · rw [if_neg (by unfold clip; omega), if_neg hc]
+
+/-! ### The `while True` loop -/
+
+theorem squareLoop_length (tukey : Nat → α) (p : SqP) (off n : Nat) :
+    ∀ (fuel : Nat) (i : Int) (env : List α), env.length = n →
+      (squareLoop ((List.range p.duty).map tukey) p off n fuel i env).length = n := by
+  intro fuel
+  induction fuel with
+  | zero => intro i env h; exact h
+  | succ fuel ih =>
+    intro i env h
+    simp only [squareLoop]
+    split
+    · exact squareStep_length tukey p off n env h i
+    · exact ih _ _ (squareStep_length tukey p off n env h i)
+
+/-- Periods that start after sample `j` of the chunk do not touch it. -/
+theorem squareLoop_later (tukey : Nat → α) (p : SqP) (hp : 0 ≤ p.period) (off n j : Nat) (hj : j < n) :
+    ∀ (fuel : Nat) (i : Int) (env : List α), env.length = n → (off : Int) + j < p.startOf i →
+      (squareLoop ((List.range p.duty).map tukey) p off n fuel i env)[j]? = env[j]? := by
+  intro fuel
+  induction fuel with
+  | zero => intro i env _ _; rfl
+  | succ fuel ih =>
+    intro i env h hs
+    have hstep : (squareStep ((List.range p.duty).map tukey) p off n env i)[j]? = env[j]? := by
+      rw [squareStep_getElem? tukey p off n env h i j hj, if_neg (by omega)]
+    simp only [squareLoop]
+    split
+    · exact hstep
+    · rw [ih _ _ (squareStep_length tukey p off n env h i)
+        (by have := startOf_mono p hp (show i ≤ i + 1 by omega); omega), hstep]
+
+/-- A period that starts at or before an absolute sample `k < offset + samples` is still
+inside the loop range: the break test `fm_samples * i - offset > samples` is false for it. -/
+theorem no_break_of_startOf_le (p : SqP) (off n j : Nat) (hj : j < n) (m : Int)
+    (hm : p.startOf m ≤ (off : Int) + j) : ¬ (p.period * (m : Rat) - (off : Rat) > (n : Rat)) := by
+  have h := le_of_rhe_le _ _ hm
+  have hjn : ((j : Rat) + 1 ≤ (n : Rat)) := by exact_mod_cast hj
+  push_cast at h
+  intro hc
+  linarith
+
+/-- Main loop invariant.  Started at a period `i ≤ m`, where `m` is the period in progress at
+sample `j` of the chunk, with enough fuel to reach the break test, the loop leaves at `j` what
+period `m` paints there (and the old value when `j` is past the duty part of period `m`). -/
+theorem squareLoop_getElem? (tukey : Nat → α) (p : SqP) (hp : 0 ≤ p.period) (off n j : Nat) (hj : j < n)
+    (m : Int) (hm1 : p.startOf m ≤ (off : Int) + j) (hm2 : (off : Int) + j < p.startOf (m + 1)) :
+    ∀ (fuel : Nat) (i : Int) (env : List α), env.length = n → i ≤ m →
+      p.period * ((i + (fuel : Int) : Int) : Rat) - (off : Rat) > (n : Rat) →
+      (squareLoop ((List.range p.duty).map tukey) p off n fuel i env)[j]? =
+        if (off : Int) + j < p.startOf m + p.duty then some (tukey ((off : Int) + j - p.startOf m).toNat)
+        else env[j]? := by
+  intro fuel
+  induction fuel with
+  | zero =>
+    intro i env _ him hf
+    exfalso
+    have hnb := no_break_of_startOf_le p off n j hj m hm1
+    have : (i : Rat) ≤ (m : Rat) := by exact_mod_cast him
+    have := mul_le_mul_of_nonneg_left this hp
+    simp only [Nat.cast_zero, add_zero] at hf
+    apply hnb
+    linarith
+  | succ fuel ih =>
+    intro i env h him hf
+    have hlen := squareStep_length tukey p off n env h i
+    have hstep := squareStep_getElem? tukey p off n env h i j hj
+    simp only [squareLoop]
+    by_cases hi : i = m
+    · subst hi
+      have hstep' : (squareStep ((List.range p.duty).map tukey) p off n env i)[j]? =
+          if (off : Int) + j < p.startOf i + p.duty then some (tukey ((off : Int) + j - p.startOf i).toNat)
+          else env[j]? := by
+        rw [hstep]
+        by_cases hc : (off : Int) + j < p.startOf i + p.duty
+        · rw [if_pos ⟨hm1, hc⟩, if_pos hc]
+        · rw [if_neg (by omega), if_neg hc]
+      split
+      · exact hstep'
+      · rw [squareLoop_later tukey p hp off n j hj fuel (i + 1) _ hlen hm2, hstep']
+    · have him' : i + 1 ≤ m := by omega
+      have hnb := no_break_of_startOf_le p off n j hj m hm1
+      have hle : p.period * ((i + 1 : Int) : Rat) ≤ p.period * (m : Rat) :=
+        mul_le_mul_of_nonneg_left (by exact_mod_cast him') hp
+      rw [if_neg (by intro hc; apply hnb; linarith)]
+      rw [ih (i + 1) _ hlen him' (by
+        have : i + 1 + (fuel : Int) = i + ((fuel + 1 : Nat) : Int) := by push_cast; omega
+        rw [this]; exact hf)]
+      by_cases hc : (off : Int) + j < p.startOf m + p.duty
+      · rw [if_pos hc, if_pos hc]
+      · rw [if_neg hc, if_neg hc, hstep, if_neg]
+        have := startOf_mono p hp (show i ≤ m by omega)
+        omega
+
+/-! ### Loop range and fuel -/
+
+/-- The first period visited, `offset // fm_samples`, starts at or before `offset`. -/
+theorem startOf_first_le (p : SqP) (hp : 0 < p.period) (off : Nat) :
+    p.startOf (((off : Rat) / p.period).floor) ≤ (off : Int) := by
+  have h1 : ((((off : Rat) / p.period).floor : Int) : Rat) ≤ (off : Rat) / p.period := Int.floor_le _
+  rw [le_div_iff₀ hp] at h1
+  unfold SqP.startOf
+  have := rhe_mono (show p.period * ((((off : Rat) / p.period).floor : Int) : Rat) ≤ ((off : Int) : Rat) by
+    push_cast; linarith)
+  rw [rhe_intCast] at this
+  exact this
+
+/-- **Termination**: `squareFuel` passes always reach the break test
+`fm_samples * i_period - offset > samples` (needs `fm_samples > 0` only). -/
+theorem squareFuel_sufficient (p : SqP) (hp : 0 < p.period) (off n : Nat) :
+    p.period * (((((off : Rat) / p.period).floor + (squareFuel p n : Int) : Int)) : Rat) - (off : Rat) > (n : Rat) := by
+  have h1 : (off : Rat) / p.period < ((((off : Rat) / p.period).floor : Int) : Rat) + 1 := Int.lt_floor_add_one _
+  have h2 : ((n : Rat) + 1) / p.period < ((((( n : Rat) + 1) / p.period).floor : Int) : Rat) + 1 :=
+    Int.lt_floor_add_one _
+  rw [div_lt_iff₀ hp] at h1 h2
+  have h3 : 0 ≤ (((n : Rat) + 1) / p.period).floor := by
+    show 0 ≤ ⌊((n : Rat) + 1) / p.period⌋
+    apply Int.floor_nonneg.mpr
+    positivity
+  unfold squareFuel
+  generalize ((off : Rat) / p.period).floor = a at h1
+  generalize (((n : Rat) + 1) / p.period).floor = b at h2 h3
+  have hb : ((b.toNat + 3 : Nat) : Int) = b + 3 := by omega
+  rw [hb]
+  push_cast
+  nlinarith
+
+/-- **Fragment theorem for `square_wave`** (exact rational arithmetic): for every positive period,
+every duty length, offset and sample count, the array returned is the `[offset, offset+samples)`
+slice of `squareAt`. -/
+theorem squareWave_eq_slice (tukey : Nat → α) (low : α) (p : SqP) (hp : 0 < p.period) (off n : Nat) :
+    squareWave tukey low p off n = slice (squareAt tukey low p) off n := by
+  apply List.ext_getElem?
+  intro j
+  rw [slice_getElem?]
+  unfold squareWave
+  simp only []
+  by_cases hj : j < n
+  · have hspec := periodAt_spec p hp (off + j)
+    rw [Nat.cast_add] at hspec
+    have hfirst := startOf_first_le p hp off
+    have hi0 : ((off : Rat) / p.period).floor ≤ p.periodAt (off + j) := by
+      have := lt_of_startOf_lt p (le_of_lt hp)
+        (show p.startOf (((off : Rat) / p.period).floor) < p.startOf (p.periodAt (off + j) + 1) by omega)
+      omega
+    rw [squareLoop_getElem? tukey p (le_of_lt hp) off n j hj (p.periodAt (off + j)) hspec.1 hspec.2
+      (squareFuel p n) _ _ (by simp) hi0 (squareFuel_sufficient p hp off n)]
+    rw [if_pos hj]
+    unfold squareAt
+    simp only [Nat.cast_add]
+    by_cases hc : (off : Int) + j < p.startOf (p.periodAt (off + j)) + p.duty
+    · rw [if_pos hc, if_pos (by omega)]
+    · rw [if_neg hc, if_neg (by omega)]
+      simp [hj]
+  · rw [if_neg hj]
+    apply List.getElem?_eq_none
+    rw [squareLoop_length tukey p off n _ _ _ (by simp)]
+    omega
+
 end Psi.Stim
